@@ -88,11 +88,11 @@ func publicBytes(m *fbb.Message) []byte {
 }
 
 type runner struct {
-	u      *Universe
-	dir    string
-	h      *mailbox.DirHandler
-	mids   []string
-	origIn map[string][]byte
+	u       *Universe
+	dir     string
+	h       *mailbox.DirHandler
+	mids    []string
+	origIn  map[string][]byte
 	origOut map[string][]byte
 }
 
